@@ -62,17 +62,17 @@ DIRECTED = [
     dict(case=dict(kind="template", alN=0.05, psiN=0.9, cb2=0.25, cs2=0.25, Tn=1.0),
          vws=[0.1239, 0.1779, 0.3, 0.45, 0.8]),
     # general solver: unconverged 2x2 solve returned as a matching; near-Jouguet hybrid
-    dict(case=dict(kind="template", alN=0.19354, psiN=0.571, cb2=0.202, cs2=0.3301,
+    dict(expect=['general-unconverged-matching', 'matching-near-jouguet-hybrid'], case=dict(kind="template", alN=0.19354, psiN=0.571, cb2=0.202, cs2=0.3301,
                    Tn=138.8), vws=[0.6952983303589946, 0.69]),
     # cb2 > cs2, psiN near 1, alN <= (mu-nu)/(3mu): template vwLTE = 0, NaN temperatures,
     # efficiencyFactor raises
-    dict(case=dict(kind="template", alN=0.01551, psiN=0.988, cb2=0.3209, cs2=0.2812,
+    dict(expect=['template-alpha-below-threshold'], case=dict(kind="template", alN=0.01551, psiN=0.988, cb2=0.3209, cs2=0.2812,
                    Tn=188.3), vws=[0.3, 0.6480766360665376], lte=True, kappa_vws=[0.4]),
     # cb2 > cs2: kappa from an unconverged general matching
-    dict(case=dict(kind="template", alN=0.06637, psiN=0.813, cb2=0.269, cs2=0.2099,
+    dict(expect=['kappa-general-unconverged-matching'], case=dict(kind="template", alN=0.06637, psiN=0.813, cb2=0.269, cs2=0.2099,
                    Tn=94.9), vws=[0.3], kappa_vws=[0.5386161604120203]),
     # template findvwLTE returns a sign change of its discontinuous residual
-    dict(case=dict(kind="template", alN=0.22323, psiN=0.656, cb2=0.2023, cs2=0.3229,
+    dict(expect=['template-vwLTE-spurious-root'], case=dict(kind="template", alN=0.22323, psiN=0.656, cb2=0.2023, cs2=0.3229,
                    Tn=0.1205), vws=[0.5], lte=True),
     # hybrids between the two sound speeds (rarefaction wave present iff vw > cb), both orderings
     dict(case=dict(kind="template", alN=0.05, psiN=0.9, cb2=0.22, cs2=0.32, Tn=1.0),
@@ -86,6 +86,12 @@ DIRECTED = [
          vws=[0.4]),
     dict(case=dict(kind="template", alN=0.36, psiN=0.55, cb2=1 / 3, cs2=1 / 3, Tn=0.02,
                    wn=1e-3), vws=[0.6]),
+    # second instance of the spurious LTE root (template residual: two jumps, no zero)
+    dict(expect=['template-vwLTE-spurious-root'], case=dict(kind="template", alN=0.01813, psiN=0.954, cb2=0.2026, cs2=0.244,
+                   Tn=0.1072), vws=[0.3], lte=True),
+    # general v+ on a jump of its shooting function, 3% below vJ, final solve converged
+    dict(expect=['general-root-on-jump'], case=dict(kind="template", alN=0.02136, psiN=0.96, cb2=0.2433, cs2=0.3256, Tn=87.6),
+         vws=["vJ*0.97"]),
     # cb2 > cs2 corners of the round-2 seeded changes (must agree on the unchanged tree)
     dict(case=dict(kind="template", alN=0.15, psiN=0.93, cb2=0.31, cs2=0.24, Tn=1.0),
          vws=[0.5, 0.7], lte=True),
@@ -234,7 +240,14 @@ def compare(ctx, case, stats, rng, n_vw, with_lte=True, with_kappa=True, vws=Non
     try:
         th, hg, ht = build(case)
     except Exception as ex:
-        ctx.count("model_rejected", bucket=type(ex).__name__)
+        # every generated parameter set is inside the quantifier: a constructor that raises
+        # is a failure of the property (no matching at all), not a rejected model
+        ctx.count("constructor_raised", bucket=type(ex).__name__)
+        ctx.fail_input("constructing Hydrodynamics / HydrodynamicsTemplateModel raised %r "
+                       "[alN=%g psiN=%g cb2=%g cs2=%g Tn=%g]" % (
+                           ex, case["alN"], case["psiN"], case["cb2"], case["cs2"],
+                           case["Tn"]), dict(case=case, quantity="constructor"),
+                       key="constructor-raises")
         return
     ctx.count("model", case, bucket="%s, alN %s (1-psiN)/3+0.03" % (
         "cb2>cs2" if case["cb2"] > case["cs2"] else "cb2<=cs2",
@@ -387,12 +400,26 @@ def compare(ctx, case, stats, rng, n_vw, with_lte=True, with_kappa=True, vws=Non
             # hybrids within 2% of the Jouguet velocity are reported as their own class
             nearJ = branch == "hybrid" and vw > 0.98 * min(hg.vJ, ht.vJ) and \
                 worst <= NEARJ_MAX and template_side_ok(th, ht, vw, mt)
+            onjump = False
+            if gstate == "ok" and branch != "detonation" and worst <= NEARJ_MAX and \
+                    template_side_ok(th, ht, vw, mt):
+                # C03 findMatching-root-on-jump / C06 vp-root-on-unconverged-jump: the general
+                # v+ sits on a jump of the code's own shooting function (failed intermediate
+                # 2x2 solves inside brentq), final solve converged; mechanism test of C02
+                try:
+                    miss = float(hg.solveHydroShock(vw, mg[0], mg[2])) - hg.Tnucl
+                    onjump = abs(miss) > 0 and base.root_on_jump(hg, vw, mg[0], miss) and \
+                        any(nm == "root" and not r.success for nm, f, r in spy.calls[:-1])
+                except Exception:
+                    onjump = False
+            if onjump:
+                nearJ = False
             fail("matching at vw=%.6g (%s, vJ=%.6g): %s general %.12g, template %.12g (rel "
                  "%.3g > %.3g)%s" % (vw, branch, ht.vJ, names[k], mg[k], mt[k], worst, tol,
                                      "" if gstate == "ok" else " [general 2x2 solve: %s]"
                                      % gstate),
-                 GEN_KEY.get(gstate, "matching-near-jouguet-hybrid" if nearJ else
-                             "matching"),
+                 GEN_KEY.get(gstate, "general-root-on-jump" if onjump else (
+                     "matching-near-jouguet-hybrid" if nearJ else "matching")),
                  vw=vw, general=mg, template=mt, quantity="matching", general_state=gstate)
             continue
         bgf = [float(x) for x in bg]
@@ -499,12 +526,17 @@ def compare(ctx, case, stats, rng, n_vw, with_lte=True, with_kappa=True, vws=Non
                         def tres(v):
                             return float(ht._shooting(v, ht.getVp(min(ht.cb, v),
                                                                  ht.solveAlpha(v))))
-                        rt_, rg_ = tres(lt), tres(lg)
-                        if gen_ok and abs(rt_) > 1e-3 and abs(rg_) < 1e-4:
+                        rt_ = tres(lt)
+                        dj = 4 * (ATOL + RTOL * lt)      # brentq locates the jump to this
+                        ra_, rb_ = tres(lt - dj), tres(lt + dj)
+                        # mechanism, on the template side only: its returned value is a JUMP
+                        # of its own residual (sign change of more than 1e-3 within 4(atol+rtol vw)),
+                        # while the general value passes the independent verification
+                        if gen_ok and ra_ * rb_ < 0 and min(abs(ra_), abs(rb_)) > 1e-3:
                             key = "template-vwLTE-spurious-root"
                             note = (" (general value verified; the template's own residual "
-                                    "is %.3g at its value and %.3g at the general one)" % (
-                                        rt_, rg_))
+                                    "jumps from %.3g to %.3g across its value, %.3g at it)"
+                                    % (ra_, rb_, rt_))
                     except Exception:
                         pass
                 fail("vwLTE: general %.12g, template %.12g%s" % (lg, lt, note), key,
@@ -818,7 +850,8 @@ def run(ctx):
             vws = d["vws"]
             if any(isinstance(v, str) for v in vws):
                 _, _, ht0 = build(case)
-                vws = [ht0.vJ - float(v[3:]) if isinstance(v, str) else v for v in vws]
+                vws = [(ht0.vJ * float(v[3:]) if isinstance(v, str) and v[2] == "*" else
+                        ht0.vJ - float(v[3:]) if isinstance(v, str) else v) for v in vws]
             with base.time_limit(300):
                 compare(ctx, dict(case), stats, rng, 6, with_lte=d.get("lte", False),
                         with_kappa="kappa_vws" in d, vws=vws, kappa_vws=d.get("kappa_vws"),
@@ -829,6 +862,16 @@ def run(ctx):
         except Exception:
             ctx.log("harness exception", json.dumps(case), traceback.format_exc())
             ctx.broken.append("harness: compare raised")
+    # every recorded finding must still reproduce on its recorded input
+    reported = set(ctx.known_count) | {v["key"] for v in ctx.violations}
+    for d in DIRECTED:
+        for key in d.get("expect", []):
+            if key not in reported:
+                ctx.log("KNOWN-FINDING-GONE:", key, json.dumps(d["case"]))
+                ctx.fail_input("the recorded finding %s no longer reproduces on its recorded "
+                               "input %s" % (key, json.dumps(d["case"])),
+                               dict(case=d["case"], quantity="recorded"),
+                               key=key + ":no-longer-reproduces")
     for m in range(nsets):
         case = gen_params(rng)
         try:
